@@ -104,10 +104,51 @@ def rule_F2(ctx):
                 srcs.append(hit[0])
             if srcs:
                 cached[g.key] = cached[srcs[0][0]]
+    # functions that change one of their parameters in place (directly, or by handing it to one that does)
+    mut_params = {}
+    for g in ctx.m.funcs.values():
+        ps = set(g.params())
+        hit = set()
+        for x in own_walk(g.node):
+            if isinstance(x, ast.Call) and isinstance(x.func, ast.Attribute) and isinstance(x.func.value, ast.Name) and x.func.value.id in ps \
+                    and x.func.attr in LIST_MUTATORS:
+                hit.add(x.func.value.id)
+            elif isinstance(x, ast.Subscript) and isinstance(x.ctx, (ast.Store, ast.Del)) and isinstance(x.value, ast.Name) and x.value.id in ps:
+                hit.add(x.value.id)
+        # a parameter that is re-bound first (`p = list(p)`) is not the caller's object any more
+        rebound = {t.id for x in own_walk(g.node) if isinstance(x, ast.Assign) for t in x.targets if isinstance(t, ast.Name)}
+        hit -= rebound
+        if hit:
+            mut_params[g.key] = hit
+    for _ in range(2):
+        for n, edges in cg.items():
+            g = ctx.m.funcs[n[0]]
+            ps = set(g.params())
+            rebound = {t.id for x in own_walk(g.node) if isinstance(x, ast.Assign) for t in x.targets if isinstance(t, ast.Name)}
+            for (callee, cs) in edges:
+                if callee[0] in mut_params and isinstance(cs.node, ast.Call):
+                    h = ctx.m.funcs[callee[0]]
+                    hp = h.params()
+                    off = 1 if (h.cls and not h.is_staticmethod() and isinstance(cs.node.func, ast.Attribute)) else 0
+                    for i, a in enumerate(cs.node.args):
+                        if isinstance(a, ast.Name) and a.id in ps and a.id not in rebound and i + off < len(hp) and hp[i + off] in mut_params[callee[0]]:
+                            mut_params.setdefault(g.key, set()).add(a.id)
     for n, edges in cg.items():
         caller = ctx.m.funcs[n[0]]
         fa = ctx.fa(n)
         names = {}
+        # a memoised result handed straight to a function that changes that argument in place
+        for (callee, cs) in edges:
+            if callee[0] in mut_params and isinstance(cs.node, ast.Call):
+                h = ctx.m.funcs[callee[0]]
+                hp = h.params()
+                off = 1 if (h.cls and not h.is_staticmethod() and isinstance(cs.node.func, ast.Attribute)) else 0
+                for i, a in enumerate(cs.node.args):
+                    if i + off < len(hp) and hp[i + off] in mut_params[callee[0]] and isinstance(a, ast.Call):
+                        src = [c2 for (c2, cs2) in edges if cs2.node is a and c2[0] in cached]
+                        if src:
+                            r.fail(caller.key, cs.node, f"the cached result of {cached[src[0][0]].key} is handed to {h.key}, which changes its parameter "
+                                   f"'{hp[i + off]}' in place: every later cache hit sees the change", loc=caller.loc(cs.node))
         for (callee, cs) in edges:
             if callee[0] not in cached or not isinstance(cs.node, ast.Call):
                 continue
@@ -172,6 +213,16 @@ def rule_F2(ctx):
                 src = names[bad[0]]
                 r.fail(caller.key, bad[1], f"'{bad[0]}' holds the cached result of {src.key} and is mutated in place: "
                        'every later cache hit sees the change', loc=caller.loc(bad[1]))
+        # ... or handed, under its local name, to a function that changes that argument in place
+        for (callee, cs) in edges:
+            if callee[0] in mut_params and isinstance(cs.node, ast.Call):
+                h = ctx.m.funcs[callee[0]]
+                hp = h.params()
+                off = 1 if (h.cls and not h.is_staticmethod() and isinstance(cs.node.func, ast.Attribute)) else 0
+                for i, a in enumerate(cs.node.args):
+                    if isinstance(a, ast.Name) and a.id in names and i + off < len(hp) and hp[i + off] in mut_params[callee[0]]:
+                        r.fail(caller.key, cs.node, f"'{a.id}' holds the cached result of {names[a.id].key} and is handed to {h.key}, which changes its "
+                               f"parameter '{hp[i + off]}' in place: every later cache hit sees the change", loc=caller.loc(cs.node))
     # inside the memoised functions: the returned object must not be a module-level mutable
     return r
 
